@@ -35,6 +35,7 @@ func checkC10(p *Prog, r *Report) {
 	r.rule("C10.M6", "UDPSession.SetMtu hands KCP.SetMtu exactly min(mtuLimit, mtu) - headerSize (- Overhead() under the *aeadCrypt test); headerSize is the crypto header (or NonceSize()) plus fecHeaderSizePlus2 iff an encoder exists; the output path reserves headerSize bytes", 5)
 	r.rule("C10.M7", "the FEC group size is the running maximum of its packets' lengths and is reset together with the shard count on every path; parity is cut to it; duplicate and parity copies have the length of their source", 4)
 	r.rule("C10.M8", "SendOOB obtains a buffer only under convSize + len(data) <= kcp.mtu; GetOOBMaxSize returns kcp.mtu - convSize", 2)
+	r.rule("C10.M10", "the core MTU is derived from the complete header size: after every store to UDPSession.headerSize every path to the function's return passes a call of UDPSession.SetMtu (which reads headerSize) — a layer's header added after the default MTU was applied is not accounted for until the application calls SetMtu itself", 3)
 	r.rule("C10.M9", "UDPSession.SetMtu returns true only if KCP.SetMtu returned 0", 1)
 
 	overhead := p.ConstInt("IKCP_OVERHEAD")
@@ -128,6 +129,43 @@ func checkC10(p *Prog, r *Report) {
 	checkSessionAccounting(p, r)
 	checkFECGroupSize(p, r)
 	checkOOBBound(p, r)
+
+	// ---- M10
+	{
+		setMtuS := p.Method("UDPSession", "SetMtu")
+		n := 0
+		for _, st := range p.FieldStores(p.Field("UDPSession", "headerSize")) {
+			if st.InLit {
+				continue
+			}
+			n++
+			fi := st.Fn
+			c := p.CFG(fi)
+			pt, _ := c.PointOf(st.Node)
+			res := c.FindPath(PathQuery{From: Point{pt.B, pt.I + 1}, ExitIsTarget: true, IsBarrier: func(nd ast.Node, _ Point) bool {
+				hit := false
+				inspectShallow(nd, func(x ast.Node) bool {
+					if call, ok := x.(*ast.CallExpr); ok && p.Callee(call) == setMtuS {
+						hit = true
+					}
+					return true
+				})
+				return hit
+			}})
+			construct := "store(UDPSession.headerSize) in " + fi.Name
+			if st.Rhs != nil {
+				construct = "headerSize " + st.Tok.String() + " " + exprString(st.Rhs) + " in " + fi.Name
+			}
+			if res.Found {
+				r.bad("C10.M10", fi.Name, p.Pos(st.Node), construct, "a path from this store to the return does not pass SetMtu: the core MTU in force was computed from the header size before this store, so datagrams are larger than the configured (default) MTU by the bytes added here", c.DescribePath(res.Path))
+			} else {
+				r.ok("C10.M10", fi.Name, p.Pos(st.Node), construct, "SetMtu follows on every path")
+			}
+		}
+		if n == 0 {
+			r.bad("C10.M10", "UDPSession", "-", "stores to headerSize", "no store to UDPSession.headerSize found", "")
+		}
+	}
 
 	// ---- M9
 	if fi := p.FuncByName("(*UDPSession).SetMtu"); fi != nil {
